@@ -101,8 +101,8 @@ def run_item(ctx, item):
     ctx.bucket("index_outside", 24)
     phys = np.array([img.TransformContinuousIndexToPhysicalPoint([float(c) for c in row]) for row in idx])
     back = np.array([img.TransformPhysicalPointToContinuousIndex([float(c) for c in row]) for row in phys])
-    wtol = ref.tol(np.abs(idx), GRID, WORLD, eps=eps, k=K)
-    itol = ref.tol(np.abs(phys), WORLD, GRID, eps=eps, k=K)
+    wtol = ref.tol(np.abs(idx), GRID, WORLD, eps=eps, k=K) + 1e-9
+    itol = ref.tol(np.abs(phys), WORLD, GRID, eps=eps, k=K) + 1e-9  # floor: the bound is exactly 0 where every term vanishes
     for route, g in grids.items():
         ctx.bucket(f"route/{route}")
         info = dict(route=route)
